@@ -86,6 +86,20 @@ class Exec:
             return
         self.ctx.oblige(f"{self.fname}/{kind}:{name}" + (f"@{line}" if line else "") + f"~{st.pathid()}", st.pc, goal, kind, line)
 
+    def reach(self, g):
+        """`x is a proper ancestor of y in g`: an uninterpreted relation of the graph's node and edge arrays; its meaning
+        is the assumed contract of networkx.ancestors / descendants (nothing about it is axiomatised here)"""
+        if not hasattr(self, "_reach_fn"):
+            NB = z3.ArraySort(self.ctx.Name, B)
+            self._reach_fn = z3.Function("nx_reaches", NB, z3.ArraySort(self.ctx.Name, NB), self.ctx.Name, self.ctx.Name, B)
+        return lambda x, y, g=g: self._reach_fn(g.N, g.FI, x, y)
+
+    def acyclic(self, g):
+        if not hasattr(self, "_acyclic_fn"):
+            NB = z3.ArraySort(self.ctx.Name, B)
+            self._acyclic_fn = z3.Function("nx_is_dag", NB, z3.ArraySort(self.ctx.Name, NB), B)
+        return self._acyclic_fn(g.N, g.FI)
+
     def name_term(self, v):
         if isinstance(v, NameV):
             return v.term
